@@ -1173,14 +1173,14 @@ COMMON_HIT = ('ev:base', 'ev:speak', 'ev:gesture', 'ev:loop', 'tags:rel', 'tags:
               'ramp', 'scene_ramp', 'curve:nondefault', 'flags:other', 'reltag', 'end_time', 'actor')
 
 SUBS = [
-    Sub('choreo_text', exec_text, strategy=strategy_text, fixed=fixed_text, quick=1200, thorough=16000, floor=100, quick_shards=16,
+    Sub('choreo_text', exec_text, strategy=strategy_text, fixed=fixed_text, quick=800, thorough=8000, floor=100, quick_shards=16,
         must_hit=COMMON_HIT + ('edge', 'scalesettings', 'file:sample.vcd')),
-    Sub('choreo_binary', exec_binary, strategy=strategy_binary, fixed=fixed_binary, quick=1200, thorough=16000, floor=100,
+    Sub('choreo_binary', exec_binary, strategy=strategy_binary, fixed=fixed_binary, quick=800, thorough=8000, floor=100,
         quick_shards=16,
         must_hit=COMMON_HIT + ('flex', 'flex:dir', 'file:sample.vcd', 'file:test_save_binary.bvcd')),
-    Sub('choreo_cross', exec_cross, strategy=strategy_cross, quick=800, thorough=12000, floor=100, quick_shards=16,
+    Sub('choreo_cross', exec_cross, strategy=strategy_cross, quick=600, thorough=6000, floor=100, quick_shards=16,
         must_hit=COMMON_HIT),
-    Sub('choreo_image', exec_image_any, strategy=strategy_image, fixed=fixed_image, quick=240, thorough=5000, floor=40,
+    Sub('choreo_image', exec_image_any, strategy=strategy_image, fixed=fixed_image, quick=160, thorough=2000, floor=40,
         quick_shards=16,
         must_hit=('version:2', 'version:3', 'mode:reexport', 'mode:mixed', 'mode:two_pools', 'entries:2+', 'arg:dict', 'arg:iter', 'input_unsorted', 'ev:speak', 'lzma')),
 ]
